@@ -449,7 +449,7 @@ class Pipeline:
         return _PipelineInternalCache()
 
     def _clear_internal_cache(self) -> None:
-        clear_cached_properties(self)
+        clear_cached_properties(self, Pipeline)  # also when `self` is an instance of a subclass
 
     def __call__(self, __output_name__: OUTPUT_TYPE | None = None, /, **kwargs: Any) -> Any:
         """Call the pipeline for a specific return value.
